@@ -12,14 +12,34 @@ DAEMON = os.path.join(DAEMON_TARGET, "debug", "quandaryd")
 SCRATCH = os.path.join(qv.BUILD, "c31-scratch")
 
 
+STAMP = os.path.join(DAEMON_TARGET, ".qv-built-from")
+
+
 def build_daemon():
     env = dict(os.environ, CARGO_NET_OFFLINE="true", CARGO_TARGET_DIR=DAEMON_TARGET)
     env.pop("RUSTFLAGS", None)
+    # The target directory is shared by all source trees ($QV_REPO), and cargo's freshness test for the root package
+    # is by modification time only: after a build from a scratch worktree, the (older) files of another tree count
+    # as fresh and the binary of the OTHER tree would be driven.  So the tree the artefacts were built from is
+    # recorded, and the crate's own artefacts (not its dependencies) are discarded whenever the tree changes.
+    try:
+        built_from = open(STAMP).read().strip()
+    except OSError:
+        built_from = None
+    if built_from != qv.REPO and os.path.isdir(DAEMON_TARGET):
+        qv.sh(["cargo", "clean", "--offline", "-p", "quandary", "--manifest-path", os.path.join(qv.REPO, "Cargo.toml")],
+              timeout=300, env=env)
+        try:
+            os.remove(DAEMON)
+        except OSError:
+            pass
     rc, out = qv.sh(["cargo", "build", "--offline", "--bin", "quandaryd", "--manifest-path",
                      os.path.join(qv.REPO, "Cargo.toml")], timeout=1500, env=env)
     if rc != 0 or not os.path.exists(DAEMON):
         qv.log(out[-3000:])
         raise RuntimeError(f"cannot build quandaryd from {qv.REPO}")
+    with open(STAMP, "w") as f:
+        f.write(qv.REPO + "\n")
     shutil.rmtree(SCRATCH, ignore_errors=True)
     os.makedirs(SCRATCH, exist_ok=True)
 
@@ -258,7 +278,14 @@ CHECK = {
                  "configuration the daemon must reject (duplicate zone, broken TOML); the real quandaryd is started, SIGHUPed "
                  "after every step and every configured name, a name below it and two unrelated names are queried over UDP "
                  "(SOA): answering zone + serial / SERVFAIL / REFUSED; non-trivial = a reload saw a configured zone whose file "
-                 "does not load; distinct = distinct case line"),
+                 "does not load; distinct = distinct case line.  KEY reload (case lines K:...; 8 fixed + 6 random histories quick, "
+                 "2-6 steps): every step is the set of [[tsig_keys]] (names k1..k3, each as hmac-sha256/secret A, hmac-sha1/secret A "
+                 "or hmac-sha256/secret B; possibly EMPTY; keys added, removed one by one, ALL removed, re-keyed, unchanged, "
+                 "re-cased/re-ordered, or a rejected configuration naming a key twice); after each SIGHUP - and a second, rejected "
+                 "SIGHUP whose error message proves the first reload has returned - one SOA query correctly signed (crate Writer, "
+                 "time = now) per (name, algorithm, secret) of the universe and one unsigned query: ok / badkey (RCODE 9, TSIG error 17, "
+                 "empty MAC, no answer/authority records) / badsig; expected: a key verifies iff it is in the CURRENT step's set "
+                 "(stated expectation in ocaml/run_c31.ml, not a Coq model); non-trivial = a reload removed or re-keyed a key in force"),
     }],
     "trusted_base": [
         "Coq 8.16.1 kernel (vm_compute only in the concrete regression witness)",
@@ -270,6 +297,9 @@ CHECK = {
         "file system as explicit input: fs_mtime/fs_load are arguments of the model; the harness realises only the combinations a "
         "real file system produces (time+loads, time+fails, missing); ErrorKind::Unsupported and 'metadata fails but the file loads' "
         "are covered by the theorems only",
+        "TSIG key reload (run.rs reload_zones_and_keys / make_tsig_key_map, config.rs duplicate-key test) is NOT in the Coq model: the "
+        "K: histories are decided against the stated expectation computed in ocaml/run_c31.ml (the key set in force is exactly the last "
+        "accepted configuration's; C10's table says what a request signed with a key inside/outside that set gets)",
         "not exhibited by the model (trusted): signal delivery and coalescing (signal-hook), the RwLock/Arc catalog swap in the server "
         "(C32's subject), file-system timestamp granularity (a file rewritten within the timestamp resolution counts as unchanged), "
         "zone-file parsing/validation itself (C23-C25), TOML parsing",
@@ -288,7 +318,10 @@ MANIFEST = {
                    "zone's file and previous state; the mtime skip is sound; the same for every history of SIGHUPs including rejected "
                    "configurations. Proof of the reload function, partial w.r.t. the daemon shell: signal handling, the concurrent catalog "
                    "swap and timestamp granularity are outside the model; the tie to the code is a differential run of ~180 (quick) histories "
-                   "against the real quandaryd process over UDP."),
+                   "against the real quandaryd process over UDP. The same suite drives the daemon's TSIG KEY reload (14 quick "
+                   "histories of key sets incl. all keys removed / re-keyed / rejected configurations; signed probes per key, algorithm and "
+                   "secret after every SIGHUP) against a stated expectation - the key set in force is exactly the last accepted "
+                   "configuration's (C10/C32 at the daemon level) - differential test only, no theorem."),
     "level_note": ("Trusted: Coq kernel, extraction, the hand-written model's correspondence to the Rust code (differentially tested against "
                    "the running daemon, not proved), zone-file parsing/validation, signal delivery. The pinned code violated the property "
                    "(previous entry found by longest-match lookup: a failing child zone reinstated its parent's stale entry and never gave "
